@@ -26,7 +26,10 @@ use std::io::Write;
 use std::process::{Command, Stdio};
 use std::time::Instant;
 
-pub const VERIF_DIR: &str = "/verif";
+/// Root of the verification tree (evidence, replays, known findings): set by ./check, defaults to /verif.
+pub fn verif_dir() -> String {
+    std::env::var("RSIM_VERIF_DIR").unwrap_or_else(|_| "/verif".to_string())
+}
 
 #[derive(Clone, Debug, Default)]
 pub struct RunSummary {
@@ -175,7 +178,7 @@ struct Known {
 
 fn load_known() -> Vec<Known> {
     let mut v = Vec::new();
-    if let Ok(s) = std::fs::read_to_string(format!("{}/known_findings.jsonl", VERIF_DIR)) {
+    if let Ok(s) = std::fs::read_to_string(format!("{}/known_findings.jsonl", verif_dir())) {
         for l in s.lines() {
             if let Ok(j) = serde_json::from_str::<Value>(l) {
                 v.push(Known {
@@ -372,7 +375,7 @@ fn cmd_check(args: &[String]) -> i32 {
     let mut exit = 0;
     let mut n_viol = 0i64;
     let mut known_hit: Vec<String> = Vec::new();
-    let _ = std::fs::create_dir_all(format!("{}/replays", VERIF_DIR));
+    let _ = std::fs::create_dir_all(format!("{}/replays", verif_dir()));
     for (sig, (run, v)) in &found {
         if let Some(k) = known_match(&known, &prop, sig) {
             if !known_hit.contains(&k.signature) {
@@ -384,7 +387,7 @@ fn cmd_check(args: &[String]) -> i32 {
         // new violation: minimise in a child, then confirm the replay file in a fresh process
         n_viol += 1;
         let safe: String = sig.chars().map(|c| if c.is_alphanumeric() { c } else { '_' }).take(60).collect();
-        let path = format!("{}/replays/{}-{}-{}-{}.json", VERIF_DIR, prop, seed, run, safe);
+        let path = format!("{}/replays/{}-{}-{}-{}.json", verif_dir(), prop, seed, run, safe);
         let is_proc = sig.contains("|watchdog|") || sig.contains("|process_killed|");
         let exe = match std::env::var("RSIM_CHECKED_EXE") {
             Ok(p) if found_checked.contains(sig) => std::path::PathBuf::from(p),
@@ -461,8 +464,8 @@ fn cmd_check(args: &[String]) -> i32 {
         "wall_s": wall,
         "violations": n_viol,
     });
-    let _ = std::fs::create_dir_all(format!("{}/evidence", VERIF_DIR));
-    if let Err(e) = std::fs::write(format!("{}/evidence/{}.json", VERIF_DIR, prop), serde_json::to_string_pretty(&ev).unwrap()) {
+    let _ = std::fs::create_dir_all(format!("{}/evidence", verif_dir()));
+    if let Err(e) = std::fs::write(format!("{}/evidence/{}.json", verif_dir(), prop), serde_json::to_string_pretty(&ev).unwrap()) {
         eprintln!("HARNESS-ERROR cannot write evidence: {}", e);
         return 2;
     }
